@@ -1,7 +1,296 @@
-(* C04 — proofs about the connection-ID cost models (Model/C04Cid.v). *)
-From Coq Require Import List ZArith Bool Lia.
-From GQ Require Import Model.C04Cid.
+(* C04 — proofs about the connection-ID cost models (Model/C04Cid.v).
+   RemoteCids: the cost functions are tied to the shared model Model.RemoteCid (variant of the
+   repaired code, `recv_new_cid no_pre post_count`): the deque it builds has exactly the cells the
+   arithmetic counts, the frames it queues are exactly the counted ones plus those of
+   CidCell::assign, and the cost is bounded from both sides. *)
+From Coq Require Import List ZArith NArith Bool Lia.
+From GQ Require Import Lib.Base Model.RemoteCid Proofs.LocalCid Proofs.RemoteCid Model.C04Cid.
 Import ListNotations.
+
+(* ------------------------------------------------------------------ RemoteCids *)
+Local Open Scope N_scope.
+
+Lemma lenN_app {A} (a b : list A) : lenN (a ++ b) = lenN a + lenN b.
+Proof. unfold lenN. rewrite app_length. lia. Qed.
+
+Lemma lenN_nrange a b : lenN (nrange a b) = b - a.
+Proof. unfold nrange, lenN. rewrite nseq_length. lia. Qed.
+
+Lemma filter_len_le {A} (f : A -> bool) l : (length (filter f l) <= length l)%nat.
+Proof. induction l as [|x r IH]; cbn; [lia|]. destruct (f x); cbn; lia. Qed.
+
+Lemma count_some_len {A} (l : list (option A)) : (count_some l <= length l)%nat.
+Proof. induction l as [|[x|] r IH]; cbn; lia. Qed.
+
+(* -- CidCell::assign keeps |allocated| + |frames| = |allocated before| + 1 -- *)
+Lemma cell_assign_count : forall c seq id c' fr,
+  cell_assign c seq id = (c', fr) -> lenN (a_alloc c') + lenN fr = lenN (a_alloc c) + 1.
+Proof.
+  intros c seq id c' fr H. unfold cell_assign in H. destruct (a_using c).
+  - inversion H; subst. cbn [a_alloc]. unfold lenN. cbn [length]. lia.
+  - cbn [trim] in H. inversion H; subst. cbn [a_alloc]. unfold lenN.
+    rewrite map_length, rev_length. cbn [length]. lia.
+Qed.
+
+Lemma live_in_range : forall cells p, a_retired (get_cell cells p) = false -> (p < length cells)%nat.
+Proof.
+  intros cells p H. destruct (Nat.lt_ge_cases p (length cells)) as [L|G]; [assumption|].
+  unfold get_cell in H. rewrite nth_overflow in H by assumption. discriminate.
+Qed.
+
+Lemma allocs_upd : forall cells p c', (p < length cells)%nat ->
+  allocs (upd cells p c') + lenN (a_alloc (get_cell cells p)) = allocs cells + lenN (a_alloc c').
+Proof.
+  induction cells as [|c r IH]; intros p c' H; [cbn in H; lia|].
+  destruct p as [|p]; cbn [upd allocs get_cell nth].
+  - lia.
+  - cbn [length] in H. specialize (IH p c' ltac:(lia)). unfold get_cell in IH. lia.
+Qed.
+
+(* -- arrange_idle_cid: every pending cell is looked at at most once; what CidCell::assign queues
+      is paid for by the connection IDs the cells held -- *)
+Lemma arrange_loop_count : forall pend coff cids cur cells ready pend' cur' cells' ready' fr,
+  arrange_loop pend coff cids cur cells ready = (pend', cur', cells', ready', fr) ->
+  lenN pend' <= lenN pend /\ lenN ready <= lenN ready' /\
+  lenN ready' + lenN pend' <= lenN ready + lenN pend /\
+  allocs cells' + lenN fr + lenN ready = allocs cells + lenN ready'.
+Proof.
+  induction pend as [|p rest IH]; intros coff cids cur cells ready pend' cur' cells' ready' fr H;
+    cbn [arrange_loop] in H.
+  - inversion H; subst. unfold lenN; cbn [length]. lia.
+  - destruct (a_retired (get_cell cells p)) eqn:ER.
+    + apply IH in H. unfold lenN in *. cbn [length]. lia.
+    + destruct (dq_get coff cids cur) as [[[seq id]|]|] eqn:EG.
+      * destruct (cell_assign (get_cell cells p) seq id) as [c' fr0] eqn:EA.
+        destruct (arrange_loop rest coff cids (cur + 1) (upd cells p c') (ready ++ [p]))
+          as [[[[pd cu] ce] rd] fr1] eqn:ER1.
+        inversion H; subst. apply IH in ER1. apply cell_assign_count in EA.
+        pose proof (allocs_upd cells p c' (live_in_range _ _ ER)) as HU.
+        rewrite !lenN_app in *. unfold lenN in *. cbn [length] in *. lia.
+      * inversion H; subst. unfold lenN; cbn [length]. lia.
+      * inversion H; subst. unfold lenN; cbn [length]. lia.
+Qed.
+
+Lemma arrange_count : forall s s' fr, arrange s = (s', fr) ->
+  lenN (r_pending s') <= lenN (r_pending s) /\ lenN (r_ready s) <= lenN (r_ready s') /\
+  lenN (r_ready s') + lenN (r_pending s') <= lenN (r_ready s) + lenN (r_pending s) /\
+  allocs (r_cells s') + lenN fr + lenN (r_ready s) = allocs (r_cells s) + lenN (r_ready s').
+Proof.
+  intros s s' fr H. unfold arrange in H.
+  destruct (arrange_loop (r_pending s) (r_coff s) (r_cids s) (r_cursor s) (r_cells s) (r_ready s))
+    as [[[[pend cur] cells] ready] fr0] eqn:E.
+  inversion H; subst. cbn [r_pending r_ready r_cells]. eapply arrange_loop_count; eassumption.
+Qed.
+
+(* -- retire_prior_to: frames for the numbers no cell used, cells popped -- *)
+Lemma rpt_count : forall s tomb s' fr, retire_prior_to s tomb = (s', fr) ->
+  lenN fr = (if r_roff s <? tomb then tomb - (r_roff s + lenN (r_ready s)) else 0) /\
+  lenN (r_ready s') + (if r_roff s <? tomb then N.min (r_roff s + lenN (r_ready s)) tomb - r_roff s else 0)
+    = lenN (r_ready s) /\
+  lenN (r_pending s') + lenN (r_ready s') <= lenN (r_pending s) + lenN (r_ready s) /\
+  lenN (r_pending s) <= lenN (r_pending s') /\
+  r_cells s' = r_cells s.
+Proof.
+  intros s tomb s' fr H. unfold retire_prior_to in H.
+  destruct (N.leb_spec tomb (r_roff s)) as [Hle|Hgt].
+  - inversion H; subst. replace (r_roff s' <? tomb) with false by (symmetry; apply N.ltb_ge; lia).
+    unfold lenN; cbn [length]. repeat split; lia.
+  - replace (r_roff s <? tomb) with true by (symmetry; apply N.ltb_lt; lia).
+    destruct (r_ready s) as [|p0 rd] eqn:ER.
+    + inversion H; subst. cbn [r_ready r_pending r_cells]. rewrite lenN_nrange.
+      unfold lenN; cbn [length]. repeat split; lia.
+    + set (rdy := p0 :: rd) in *.
+      assert (HP : lenN (r_pending s ++ live_of (r_cells s) (takeN (N.min (r_roff s + lenN rdy) tomb - r_roff s) rdy))
+                   <= lenN (r_pending s) + (N.min (r_roff s + lenN rdy) tomb - r_roff s)).
+      { rewrite lenN_app. unfold live_of.
+        pose proof (filter_len_le (fun p => negb (a_retired (get_cell (r_cells s) p)))
+                      (takeN (N.min (r_roff s + lenN rdy) tomb - r_roff s) rdy)) as HF.
+        pose proof (lenN_takeN _ (N.min (r_roff s + lenN rdy) tomb - r_roff s) rdy) as HT.
+        unfold lenN in *. lia. }
+      assert (HQ : lenN (r_pending s) <= lenN (r_pending s ++ live_of (r_cells s) (takeN (N.min (r_roff s + lenN rdy) tomb - r_roff s) rdy))).
+      { rewrite lenN_app. lia. }
+      pose proof (lenN_dropN _ (N.min (r_roff s + lenN rdy) tomb - r_roff s) rdy) as HD.
+      destruct (r_roff s + lenN rdy <? tomb) eqn:E; inversion H; subst;
+        cbn [r_ready r_pending r_cells]; [apply N.ltb_lt in E; rewrite lenN_nrange|apply N.ltb_ge in E; unfold lenN at 1; cbn [length]];
+        (split; [lia|split; [lia|split; [lia|split; [lia|reflexivity]]]]).
+Qed.
+
+(* -- the whole call on the shared model -- *)
+Lemma rc_recv_unfold : forall s seq rpt, rc_discards s seq = false ->
+  rc_recv s seq rpt =
+    (let '(s3, fr) := processed s seq rpt seq in
+     (s3, fr, if r_limit s <? active s3 then NErrLimit else NAccepted)).
+Proof. intros s seq rpt H. unfold rc_recv. rewrite recv_count_spec. unfold rc_discards in H. rewrite H. reflexivity. Qed.
+
+Lemma rc_recv_discarded : forall s seq rpt, rc_discards s seq = true -> rc_recv s seq rpt = (s, [], NDiscarded).
+Proof. intros s seq rpt H. unfold rc_recv. rewrite recv_count_spec. unfold rc_discards in H. rewrite H. reflexivity. Qed.
+
+Lemma rc_recv_shape : forall s seq rpt s' fr res,
+  rc_discards s seq = false -> rc_recv s seq rpt = (s', fr, res) ->
+  r_coff s' = rc_coff_after s seq rpt /\
+  lenN (r_cids s') = rc_len_ins s seq - rc_drained s seq rpt /\
+  rc_drained s seq rpt <= rc_len_ins s seq /\
+  rc_gap_frames s rpt <= lenN fr /\
+  lenN fr + allocs (r_cells s') + lenN (r_ready s) =
+    rc_gap_frames s rpt + allocs (r_cells s) + lenN (r_ready s') + rc_popped s rpt /\
+  lenN (r_ready s') + lenN (r_pending s') <= lenN (r_ready s) + lenN (r_pending s) /\
+  rc_popped s rpt <= lenN (r_ready s) /\
+  res = (if r_limit s <? active s' then NErrLimit else NAccepted).
+Proof.
+  intros s seq rpt s' fr res HD H. rewrite rc_recv_unfold in H by assumption. unfold processed in H.
+  destruct (retire_prior_to (inserted s seq seq) rpt) as [s2 f1] eqn:E2.
+  destruct (arrange s2) as [s3 f2] eqn:E3. inversion H; subst s3 fr res. clear H.
+  pose proof (arrange_fields _ _ _ E3) as (A1 & A2 & A3 & A4).
+  pose proof (arrange_count _ _ _ E3) as (B1 & B2 & B3 & B4).
+  pose proof (rpt_count _ _ _ _ E2) as (C1 & C2 & C3 & C4 & C5).
+  cbn [inserted r_roff r_ready r_pending r_cells] in C1, C2, C3, C4, C5.
+  unfold rc_discards in HD. apply N.ltb_ge in HD.
+  unfold rc_coff_after, rc_drained, rc_coff_after, rc_gap_frames, rc_popped, rc_retires, rc_applied, rc_len_ins.
+  rewrite lenN_app, A1, A2, C5 in *.
+  destruct (N.ltb_spec (r_roff s) rpt) as [Hgt|Hle].
+  - apply rpt_fields in E2; [|cbn [inserted r_roff]; lia]. destruct E2 as (D1 & D2 & D3 & D4 & D5 & D6).
+    cbn [inserted r_coff r_cids] in D4, D5. rewrite D5, lenN_dropN, D4, !dq_insert_length by assumption.
+    repeat split; try lia.
+  - rewrite rpt_noop in E2 by (cbn [inserted r_roff]; lia). inversion E2; subst s2 f1.
+    cbn [inserted r_coff r_cids r_ready r_pending r_cells] in *. rewrite dq_insert_length by assumption.
+    repeat split; try lia.
+Qed.
+
+Lemma rc_len_ins_gap : forall s seq, rc_discards s seq = false ->
+  rc_len_ins s seq = lenN (r_cids s) + rc_gap s seq + (if rc_end s <=? seq then 1 else 0).
+Proof.
+  intros s seq H. unfold rc_discards in H. apply N.ltb_ge in H. unfold rc_len_ins, rc_gap, rc_end.
+  destruct (N.leb_spec (r_coff s + lenN (r_cids s)) seq); lia.
+Qed.
+
+(* the deque the shared model builds has exactly the cells the arithmetic counts: [rc_gap] default
+   cells (plus the stored one when the number lies beyond the old end), minus the drained ones *)
+Lemma p_c04_new_cid_cells : forall s seq rpt s' fr res,
+  rc_discards s seq = false -> rc_recv s seq rpt = (s', fr, res) ->
+  lenN (r_cids s') + rc_drained s seq rpt =
+    lenN (r_cids s) + rc_new_cells s seq + (if rc_end s <=? seq then 1 else 0) /\
+  r_coff s' = rc_coff_after s seq rpt.
+Proof.
+  intros s seq rpt s' fr res HD H. pose proof (rc_recv_shape _ _ _ _ _ _ HD H) as (S1 & S2 & S3 & _).
+  pose proof (rc_len_ins_gap s seq HD) as HG. unfold rc_new_cells. rewrite HD.
+  split; [|assumption]. destruct (rc_end s <=? seq); lia.
+Qed.
+
+(* the frames it queues: one per sequence NUMBER between the highest number a path ever used and
+   retire_prior_to, plus what CidCell::assign retires (paid for by the IDs the cells held) *)
+Lemma p_c04_new_cid_frames : forall s seq rpt s' fr res,
+  rc_discards s seq = false -> rc_recv s seq rpt = (s', fr, res) ->
+  rc_gap_frames s rpt <= lenN fr /\
+  lenN fr <= rc_gap_frames s rpt + allocs (r_cells s) + lenN (r_pending s) + lenN (r_ready s).
+Proof.
+  intros s seq rpt s' fr res HD H.
+  pose proof (rc_recv_shape _ _ _ _ _ _ HD H) as (_ & _ & _ & S4 & S5 & S6 & S7 & _). lia.
+Qed.
+
+(* the bound that DOES hold: linear in how far the sequence number and retire_prior_to jump *)
+Lemma p_c04_new_cid_value_bound : forall s seq rpt,
+  rc_new_cost s seq rpt <= 2 * rc_gap s seq + rc_gap_frames s rpt + 4 * rc_size s + 6.
+Proof.
+  intros s seq rpt. unfold rc_new_cost. destruct (rc_discards s seq) eqn:HD; [lia|].
+  destruct (rc_recv s seq rpt) as [[s' fr] res] eqn:E.
+  pose proof (rc_recv_shape _ _ _ _ _ _ HD E) as (S1 & S2 & S3 & S4 & S5 & S6 & S7 & _).
+  pose proof (rc_len_ins_gap s seq HD) as HG. unfold rc_size.
+  destruct (rc_end s <=? seq); lia.
+Qed.
+
+Lemma rc_gap_frames_le : forall s rpt, rc_gap_frames s rpt <= rpt - r_roff s.
+Proof. intros. unfold rc_gap_frames, rc_applied. destruct (rc_retires s rpt); lia. Qed.
+
+(* outside the class of F10 (the sequence number or retire_prior_to jumps by more than K) *)
+Lemma p_c04_new_cid_cost : forall K s seq rpt,
+  seq - rc_end s <= K -> rpt - rc_applied s <= K ->
+  rc_new_cost s seq rpt <= 3 * K + 4 * rc_size s + 6.
+Proof.
+  intros K s seq rpt H1 H2. pose proof (p_c04_new_cid_value_bound s seq rpt) as H.
+  assert (rc_gap_frames s rpt <= K) by (unfold rc_gap_frames; destruct (rc_retires s rpt); lia).
+  unfold rc_gap in H. lia.
+Qed.
+
+Lemma p_c04_retire_prior_cost : forall K s seq rpt,
+  rpt - r_coff s <= K -> rpt - rc_applied s <= K ->
+  rc_retire_cost s seq rpt <= 2 * K + lenN (r_ready s) + 1.
+Proof.
+  intros K s seq rpt H1 H2. unfold rc_retire_cost, rc_drained, rc_coff_after, rc_popped, rc_gap_frames, rc_applied in *.
+  destruct (rc_retires s rpt); lia.
+Qed.
+
+(* cost, cells and frames grow with the VALUE *)
+Lemma p_c04_new_cid_cost_lower : forall s seq rpt, rc_discards s seq = false ->
+  rc_gap s seq + rc_gap_frames s rpt <= rc_new_cost s seq rpt.
+Proof.
+  intros s seq rpt HD. unfold rc_new_cost. rewrite HD.
+  destruct (rc_recv s seq rpt) as [[s' fr] res] eqn:E.
+  pose proof (rc_recv_shape _ _ _ _ _ _ HD E) as (_ & _ & _ & S4 & _). lia.
+Qed.
+
+Lemma active_le_len : forall s, active s <= lenN (r_cids s).
+Proof. intros. unfold active, lenN. pose proof (count_some_len (r_cids s)). lia. Qed.
+
+Lemma rc_init_2 : rc_init 2 = mkR 0 [Some (0, 0)] 0 [0%nat] [] 2 1 [mkCell [(0, 0)] false false].
+Proof. reflexivity. Qed.
+
+(* REFUTED: no linear bound in frame bytes + tracked state (a NEW_CONNECTION_ID frame is at most
+   1 + 8 + 8 + 1 + 20 + 16 = 54 bytes; the fresh state holds 3 cells), for frames the count-based
+   limit ACCEPTS: one active connection ID is left *)
+Lemma p_c04_new_cid_cost_refuted : forall c c', exists seq rpt,
+  rpt <= seq /\
+  (let '(s', fr, res) := rc_recv (rc_init 2) seq rpt in
+   res = NAccepted /\ active s' <= 1 /\ c * (54 + rc_size (rc_init 2)) + c' < lenN fr) /\
+  c * (54 + rc_size (rc_init 2)) + c' < rc_new_cells (rc_init 2) seq /\
+  c * (54 + rc_size (rc_init 2)) + c' < rc_new_cost (rc_init 2) seq rpt.
+Proof.
+  intros c c'. set (n := c * (54 + rc_size (rc_init 2)) + c' + 3).
+  exists n, n. split; [lia|].
+  assert (HD : rc_discards (rc_init 2) n = false).
+  { unfold rc_discards. rewrite rc_init_2. cbn [r_coff]. apply N.ltb_ge. lia. }
+  assert (HG : rc_gap (rc_init 2) n = n - 1).
+  { unfold rc_gap, rc_end. rewrite rc_init_2. cbn [r_coff r_cids]. change (lenN [Some (0, 0)]) with 1. lia. }
+  assert (HR : rc_retires (rc_init 2) n = true).
+  { unfold rc_retires. rewrite rc_init_2. cbn [r_roff]. apply N.ltb_lt. lia. }
+  assert (HF : rc_gap_frames (rc_init 2) n = n - 1).
+  { unfold rc_gap_frames. rewrite HR. unfold rc_applied. rewrite rc_init_2. cbn [r_roff r_ready].
+    change (lenN [0%nat]) with 1. lia. }
+  assert (HL : rc_len_ins (rc_init 2) n - rc_drained (rc_init 2) n n = 1).
+  { unfold rc_drained, rc_coff_after. rewrite HR. unfold rc_len_ins. rewrite rc_init_2. cbn [r_coff r_cids].
+    change (lenN [Some (0, 0)]) with 1. lia. }
+  pose proof (p_c04_new_cid_cost_lower (rc_init 2) n n HD) as HC.
+  destruct (rc_recv (rc_init 2) n n) as [[s' fr] res] eqn:E.
+  pose proof (rc_recv_shape _ _ _ _ _ _ HD E) as (_ & S2 & _ & S4 & _ & _ & _ & S8).
+  pose proof (active_le_len s') as HA. rewrite S2, HL in HA.
+  assert (HN : n = c * (54 + rc_size (rc_init 2)) + c' + 3) by reflexivity. clearbody n.
+  split; [split; [|split; [assumption|lia]]|split].
+  - rewrite S8. replace (r_limit (rc_init 2)) with 2 by reflexivity.
+    destruct (N.ltb_spec 2 (active s')); [lia|reflexivity].
+  - unfold rc_new_cells. rewrite HD. lia.
+  - lia.
+Qed.
+
+(* the limit: the frame is processed, then the ACTIVE connection IDs are counted; more than
+   active_connection_id_limit of them is CONNECTION_ID_LIMIT_ERROR, anything else is accepted *)
+Lemma p_c04_new_cid_limit : forall s seq rpt s' fr res,
+  rc_discards s seq = false -> rc_recv s seq rpt = (s', fr, res) ->
+  (r_limit s < active s' -> res = NErrLimit /\ rc_res_err res = E_CONNECTION_ID_LIMIT) /\
+  (active s' <= r_limit s -> res = NAccepted /\ rc_res_err res = E_NONE).
+Proof.
+  intros s seq rpt s' fr res HD H.
+  pose proof (rc_recv_shape _ _ _ _ _ _ HD H) as (_ & _ & _ & _ & _ & _ & _ & S8). subst res.
+  destruct (N.ltb_spec (r_limit s) (active s')); split; intros; try lia; split; reflexivity.
+Qed.
+
+(* a sequence number below the offset of cid_deque: the frame is dropped at the first test *)
+Lemma p_c04_new_cid_discarded : forall s seq rpt, seq < r_coff s ->
+  rc_recv s seq rpt = (s, [], NDiscarded) /\ rc_new_cost s seq rpt = 1 /\ rc_new_drv s seq rpt = 0.
+Proof.
+  intros s seq rpt H. assert (HD : rc_discards s seq = true) by (apply N.ltb_lt; assumption).
+  split; [apply rc_recv_discarded; assumption|]. unfold rc_new_cost, rc_new_drv. rewrite HD. auto.
+Qed.
+
+Local Close Scope N_scope.
 Local Open Scope Z_scope.
 
 Lemma zlen_nonneg {A} (l : list A) : 0 <= zlen l.
@@ -11,170 +300,8 @@ Proof. unfold zlen. rewrite app_length. lia. Qed.
 Lemma zlen_repeat {A} (x : A) n : zlen (repeat x n) = Z.of_nat n.
 Proof. unfold zlen. now rewrite repeat_length. Qed.
 
-(* ------------------------------------------------------------------ arrange_idle_cid *)
-Lemma arrange_bounds : forall has pend cur n f r,
-  arrange has pend cur = (n, f, r) ->
-  0 <= n /\ 0 <= f <= n /\ n + zlen r = zlen pend.
-Proof.
-  induction pend as [|h rest IH]; intros cur n f r H; cbn [arrange] in H.
-  - inversion H; subst. unfold zlen; cbn. lia.
-  - destruct (has cur).
-    + destruct (arrange has rest (cur + 1)) as [[n1 f1] r1] eqn:E. inversion H; subst.
-      specialize (IH _ _ _ _ E). unfold zlen in *; cbn [length]. destruct h; cbn [b2z]; lia.
-    + inversion H; subst. unfold zlen; cbn [length]. lia.
-Qed.
-
-(* ------------------------------------------------------------------ RemoteCids *)
-Definition rc_wf (s : rcids) : Prop :=
-  0 <= rc_off s /\ 0 <= rc_roff s /\ 0 <= rc_nready s /\ 0 <= rc_limit s /\ 0 <= rc_cursor s.
-
-Lemma rc_gap_nonneg s seq : 0 <= rc_gap s seq.
-Proof. unfold rc_gap. lia. Qed.
-
-Lemma rc_popped_bounds s rpt : rc_wf s -> 0 <= rc_popped s rpt <= rc_nready s.
-Proof.
-  intros (H1 & H2 & H3 & H4 & H5). unfold rc_popped, rc_retires.
-  destruct (rc_roff s <? rpt) eqn:E; [|lia]. apply Z.ltb_lt in E.
-  destruct (rc_nready s =? 0) eqn:N; [apply Z.eqb_eq in N; lia|]. lia.
-Qed.
-
-Lemma rc_gap_frames_bounds s rpt : rc_wf s -> 0 <= rc_gap_frames s rpt <= Z.max 0 (rpt - rc_roff s).
-Proof.
-  intros (H1 & H2 & H3 & H4 & H5). unfold rc_gap_frames, rc_retires.
-  destruct (rc_roff s <? rpt) eqn:E; [|lia]. apply Z.ltb_lt in E.
-  destruct (rc_nready s =? 0); lia.
-Qed.
-
-Lemma rc_drained_bounds s seq rpt : rc_wf s -> rc_off s <= seq ->
-  0 <= rc_drained s seq rpt <= Z.max 0 (rpt - rc_off s).
-Proof.
-  intros (H1 & H2 & H3 & H4 & H5) Hs. unfold rc_drained, rc_retires, rc_len_ins, rc_len.
-  pose proof (zlen_nonneg (rc_cells s)).
-  destruct (rc_roff s <? rpt); lia.
-Qed.
-
-(* the bound that DOES hold: linear in how far the sequence number and retire_prior_to jump *)
-Lemma p_c04_new_cid_value_bound : forall s seq rpt,
-  rc_wf s -> 0 <= rpt <= seq ->
-  rc_new_cost s seq rpt <=
-    Z.max 0 (seq - (rc_off s + rc_len s)) + Z.max 0 (rpt - rc_off s) + Z.max 0 (rpt - rc_roff s)
-    + 2 * rc_nready s + zlen (rc_pending s) + 5.
-Proof.
-  intros s seq rpt W Hr. unfold rc_new_cost.
-  destruct (rc_over_limit s seq rpt).
-  { destruct W as (H1 & H2 & H3 & H4 & H5). pose proof (zlen_nonneg (rc_pending s)). lia. }
-  destruct (seq <? rc_off s) eqn:Es.
-  { destruct W as (H1 & H2 & H3 & H4 & H5). pose proof (zlen_nonneg (rc_pending s)). lia. }
-  apply Z.ltb_ge in Es.
-  destruct (arrange _ _ _) as [[n f] r] eqn:A.
-  apply arrange_bounds in A. unfold rc_pending_after in A. rewrite zlen_app, zlen_repeat in A.
-  pose proof (rc_popped_bounds s rpt W) as Hp.
-  pose proof (rc_gap_frames_bounds s rpt W) as Hg.
-  pose proof (rc_drained_bounds s seq rpt W Es) as Hd.
-  pose proof (zlen_nonneg r). unfold rc_retire_cost, rc_gap.
-  rewrite Z2Nat.id in A by lia. lia.
-Qed.
-
-(* outside the class of F10 (a jump of more than K) the cost is bounded by the state *)
-Lemma p_c04_new_cid_cost : forall K s seq rpt,
-  rc_wf s -> 0 <= rpt <= seq -> 0 <= K ->
-  seq - (rc_off s + rc_len s) <= K -> rpt - rc_off s <= K -> rpt - rc_roff s <= K ->
-  rc_new_cost s seq rpt <= 3 * K + 2 * rc_size s + 5.
-Proof.
-  intros K s seq rpt W Hr HK H1 H2 H3.
-  pose proof (p_c04_new_cid_value_bound s seq rpt W Hr).
-  unfold rc_size. pose proof (zlen_nonneg (rc_pending s)). pose proof (zlen_nonneg (rc_cells s)).
-  unfold rc_len in *. destruct W as (W1 & W2 & W3 & W4 & W5). lia.
-Qed.
-
-Lemma p_c04_retire_prior_cost : forall K s seq rpt,
-  rc_wf s -> rc_off s <= seq -> 0 <= K -> rpt - rc_off s <= K -> rpt - rc_roff s <= K ->
-  rc_retire_cost s seq rpt <= 2 * K + rc_nready s + 1.
-Proof.
-  intros K s seq rpt W Hs HK H1 H2. unfold rc_retire_cost.
-  pose proof (rc_popped_bounds s rpt W). pose proof (rc_gap_frames_bounds s rpt W).
-  pose proof (rc_drained_bounds s seq rpt W Hs). lia.
-Qed.
-
-(* cost and frames grow with the VALUE: at least the gap, at least the retired numbers *)
-Lemma rc_new_cost_lower : forall n, 2 <= n ->
-  n - 1 <= rc_new_cost (rc_init 2) n n /\ n - 1 <= rc_new_frames (rc_init 2) n n.
-Proof.
-  intros n Hn. unfold rc_new_cost, rc_new_frames.
-  assert (O : rc_over_limit (rc_init 2) n n = false).
-  { unfold rc_over_limit, rc_init; cbn [rc_limit]. apply Z.ltb_ge. lia. }
-  rewrite O. assert (S : (n <? rc_off (rc_init 2)) = false) by (apply Z.ltb_ge; cbn; lia). rewrite S.
-  destruct (arrange _ _ _) as [[k f] r] eqn:A. apply arrange_bounds in A.
-  assert (G : rc_gap (rc_init 2) n = n - 1) by (unfold rc_gap, rc_init, rc_len, zlen; cbn; lia).
-  assert (F : rc_gap_frames (rc_init 2) n = n - 1).
-  { unfold rc_gap_frames, rc_retires, rc_init; cbn [rc_roff rc_nready].
-    destruct (0 <? n) eqn:E; [|apply Z.ltb_ge in E; lia]. cbn. lia. }
-  pose proof (rc_drained_bounds (rc_init 2) n n) as D. unfold rc_retire_cost.
-  assert (W : rc_wf (rc_init 2)) by (unfold rc_wf, rc_init; cbn; lia).
-  specialize (D W ltac:(cbn; lia)). pose proof (rc_popped_bounds (rc_init 2) n W). lia.
-Qed.
-
-(* REFUTED: no linear bound in frame bytes + tracked state (a NEW_CONNECTION_ID frame is at most
-   1 + 8 + 8 + 1 + 20 + 16 = 54 bytes; the fresh state holds 2 cells) *)
-Lemma p_c04_new_cid_cost_refuted : forall c c', 0 <= c -> 0 <= c' ->
-  exists seq rpt, 0 <= rpt <= seq /\ seq - rpt <= rc_limit (rc_init 2) /\
-    c * (54 + rc_size (rc_init 2)) + c' < rc_new_cost (rc_init 2) seq rpt /\
-    c * (54 + rc_size (rc_init 2)) + c' < rc_new_frames (rc_init 2) seq rpt.
-Proof.
-  intros c c' Hc Hc'. exists (c * 56 + c' + 2), (c * 56 + c' + 2).
-  pose proof (rc_new_cost_lower (c * 56 + c' + 2) ltac:(lia)) as [L1 L2].
-  assert (rc_size (rc_init 2) = 2) by reflexivity.
-  cbn [rc_limit rc_init]. lia.
-Qed.
-
-(* the limit: more than active_cid_limit IDs between retire_prior_to and seq is an error, costs one
-   comparison and changes nothing *)
-Lemma p_c04_new_cid_limit : forall s seq rpt,
-  rc_limit s < seq - rpt ->
-  rc_new_err s seq rpt = E_CONNECTION_ID_LIMIT /\ rc_new_cost s seq rpt = 1 /\
-  rc_new_frames s seq rpt = 0 /\ rc_new_apply s seq rpt = s.
-Proof.
-  intros s seq rpt H. unfold rc_new_err, rc_new_cost, rc_new_frames, rc_new_apply.
-  assert (O : rc_over_limit s seq rpt = true) by (unfold rc_over_limit; apply Z.ltb_lt; lia).
-  rewrite O. auto.
-Qed.
-
-(* the two forms of the handler agree: the deque the state transformer builds has exactly the
-   cells the cost counted (gap filled, one pushed, the drained ones dropped) *)
-Lemma set_nth_b_length : forall n l, length (set_nth_b n l) = length l.
-Proof. induction n; destruct l; cbn; auto. Qed.
-
-Lemma cells_insert_len : forall off cells seq, off <= seq ->
-  zlen (cells_insert off cells seq) = Z.max (zlen cells) (seq - off + 1).
-Proof.
-  intros off cells seq H. unfold cells_insert.
-  destruct (seq - off <? zlen cells) eqn:E.
-  - apply Z.ltb_lt in E. unfold zlen in *. rewrite set_nth_b_length. lia.
-  - apply Z.ltb_ge in E. rewrite !zlen_app, zlen_repeat. unfold zlen at 3; cbn [length].
-    pose proof (zlen_nonneg cells). rewrite Z2Nat.id by lia. lia.
-Qed.
-
-Lemma p_c04_new_cid_cells : forall s seq rpt,
-  rc_wf s -> 0 <= rpt <= seq -> rc_over_limit s seq rpt = false -> rc_off s <= seq ->
-  rc_len (rc_new_apply s seq rpt) = rc_len s + rc_new_cells s seq rpt + (if rc_len s + rc_off s <=? seq then 1 else 0)
-                                    - rc_drained s seq rpt /\
-  rc_off (rc_new_apply s seq rpt) = rc_off_after s seq rpt.
-Proof.
-  intros s seq rpt W Hr O Hs. unfold rc_new_apply, rc_new_cells. rewrite O.
-  assert (S : (seq <? rc_off s) = false) by (apply Z.ltb_ge; lia). rewrite S.
-  destruct (arrange _ _ _) as [[n f] r] eqn:A. unfold rc_len at 1. cbn [rc_cells rc_off].
-  pose proof (rc_drained_bounds s seq rpt W Hs) as D.
-  pose proof (cells_insert_len (rc_off s) (rc_cells s) seq Hs) as L.
-  assert (D2 : rc_drained s seq rpt <= zlen (cells_insert (rc_off s) (rc_cells s) seq)).
-  { rewrite L. unfold rc_drained, rc_len_ins, rc_len. destruct (rc_retires s rpt); pose proof (zlen_nonneg (rc_cells s)); lia. }
-  split; [|reflexivity].
-  unfold zlen at 1. rewrite skipn_length. unfold zlen in D2, L. unfold rc_gap, rc_len, zlen.
-  destruct (Z.of_nat (length (rc_cells s)) + rc_off s <=? seq) eqn:E;
-    [apply Z.leb_le in E|apply Z.leb_gt in E]; lia.
-Qed.
-
 (* ------------------------------------------------------------------ LocalCids *)
-Definition lc_wf (s : lcids) : Prop := 0 <= lc_off s.
+Definition lc_wf (s : lcst) : Prop := 0 <= lc_off s.
 
 Lemma p_c04_set_limit_value_bound : forall s n, lc_wf s -> lc_set_cost s n <= Z.max 0 n + 1.
 Proof.
@@ -202,7 +329,7 @@ Proof.
   unfold lc_len; cbn [lc_cells]. rewrite zlen_app, zlen_repeat. rewrite Z2Nat.id by lia. reflexivity.
 Qed.
 
-Lemma leading_none_le : forall l, (leading_none l <= length l)%nat.
+Lemma lead_none_le : forall l, (lead_none l <= length l)%nat.
 Proof. induction l as [|[] r IH]; cbn; lia. Qed.
 Lemma clear_nth_length : forall n l, length (clear_nth n l) = length l.
 Proof. induction n; destruct l; cbn; auto. Qed.
@@ -211,7 +338,7 @@ Lemma p_c04_retire_cid_cost : forall s seq, lc_retire_cost s seq <= lc_len s + 2
 Proof.
   intros s seq. unfold lc_retire_cost, lc_retire_advance, lc_len, zlen.
   destruct (lc_retire_hits s seq); [|lia].
-  pose proof (leading_none_le (clear_nth (Z.to_nat (seq - lc_off s)) (lc_cells s))) as H.
+  pose proof (lead_none_le (clear_nth (Z.to_nat (seq - lc_off s)) (lc_cells s))) as H.
   rewrite clear_nth_length in H. lia.
 Qed.
 
